@@ -161,8 +161,9 @@ def main():
         print('VIOLATION property=%s replay=%s no-failing-input-found' % (prop, p)); rc = 1
     ev['violations'] = len(violations) + (1 if broken and not violations else 0)
     ev['wall_s'] = round(time.time() - t0, 2)
-    os.makedirs(os.path.join(lib.VERIF, 'evidence'), exist_ok=True)
-    json.dump(ev, open(os.path.join(lib.VERIF, 'evidence', prop + '.json'), 'w'), indent=1, default=str)
+    evdir = os.environ.get('VERIF_EVIDENCE_DIR') or os.path.join(lib.VERIF, 'evidence')     # seeded-change self tests redirect the evidence
+    os.makedirs(evdir, exist_ok=True)
+    json.dump(ev, open(os.path.join(evdir, prop + '.json'), 'w'), indent=1, default=str)
     log('%s %s: obligations %d/%d, evaluations %s, mismatches %s, %.1fs' % (prop, tier, discharged, len(obligations),
         cov.get('evaluations'), cov.get('model_mismatches'), ev['wall_s']))
     sys.exit(rc)
